@@ -36,3 +36,20 @@ def build_forest(parents, ncomp):
     if len(cells) == 1:
         return cells[0]
     return jx.Network(cells)
+
+
+def enable_compile_cache():
+    """Share compiled XLA executables between the worker processes of one check (keyed by the HLO,
+    so edited source code is recompiled; purely a speed-up)."""
+    d = os.path.join(os.path.dirname(os.path.dirname(os.path.abspath(__file__))), ".work", "jaxcache")
+    os.makedirs(d, exist_ok=True)
+    try:
+        jax.config.update("jax_compilation_cache_dir", d)
+        jax.config.update("jax_persistent_cache_min_compile_time_secs", 0.0)
+        jax.config.update("jax_persistent_cache_min_entry_size_bytes", -1)
+    except Exception:
+        pass
+
+
+if os.environ.get("VERIF_JAXCACHE", "1") == "1":
+    enable_compile_cache()
